@@ -10,6 +10,7 @@ case <idx> <b|a> <json|jsonnp|msg> <max> <behaviour,behaviour,…|-> [dead=<Kind
 life <idx> <b|a> <max> <behaviour,…|-> <conn|disc|reconn|health|call,…> [dead=…]
    -> <idx> o <op observation>:<connected> … | h … | rec <n|never>
 mr  … same as bc, through `map_reduce_json`
+obs <idx> <b|a> <variant> <max> <observers> <rounds> -> <idx> all <round pattern> | <idx> first <pattern> round <k> <pattern>
 opts <idx> <b|a> <zero|dup|dupadd>   -> <idx> rejected|accepted   (what the constructors refuse)
 any line may carry a word `p=…` (parameter styles of the harness); the model ignores it
 bc <idx> <b|a> <max> <name=tag+tag=behaviour,…;…> <tag,tag|->
@@ -137,6 +138,28 @@ def step (st : Unit) (ws : List String) : Unit × String :=
     match enforced with
     | some b => (st, idx ++ (if b then " rejected" else " accepted"))
     | none => (st, idx ++ " bad-op")
+  | ["obs", idx, fleet, variant, max, _observers, rounds] =>
+    -- rounds of "the node drops one request, then is healthy" on one fleet; who else looks at the
+    -- fleet meanwhile is not in the model: the prediction is the same for every number of observers
+    match policyOf fleet, loopOf fleet variant with
+    | some P, some lf =>
+      let round (c : Cache) : List CallObs × Cache :=
+        let a := call P lf (natOf max) c [.acceptThenClose]
+        if a.result = some .ok then ([obsOf a], a.cache)
+        else
+          let b := call P lf (natOf max) a.cache a.rest
+          ([obsOf a, obsOf b], b.cache)
+      let rec go : Nat → Nat → Cache → Option (List CallObs) → String
+        | 0, _, _, first => idx ++ " all " ++ joinSp ((first.getD []).map showObs)
+        | k+1, i, c, first =>
+          let (os, c') := round c
+          match first with
+          | none => go k (i+1) c' (some os)
+          | some f =>
+            if f = os then go k (i+1) c' first
+            else idx ++ " first " ++ joinSp (f.map showObs) ++ " round " ++ toString i ++ " " ++ joinSp (os.map showObs)
+      (st, go (natOf rounds) 0 .none none)
+    | _, _ => (st, idx ++ " bad-op")
   | "case" :: idx :: fleet :: variant :: max :: seq :: rest =>
     -- optional 7th word `dead=K,K,…`: the error kinds the harness observed for calls on a dead cached client
     let observed : Option (List IoKind) := match rest with
